@@ -825,6 +825,27 @@ func (c *layoutCtx) fixedEnc(evs []*Event) *FieldLayout {
 			total = total.Add(affOf(e.Size), 1)
 			if bw.pad != nil {
 				p := padString(bw.pad)
+				// a constant pad byte on an arm taken only when the field's pad byte IS that constant (`if pad != 0 { fill }`
+				// over a zeroed array, else the zeros as they are): the same pad byte
+				if isDecimal(p) {
+					conds := armS.conds
+					if c.path != nil {
+						conds = append(append([]Cond(nil), c.path.Conds...), conds...)
+					}
+					for _, cd := range conds {
+						v := cd.V
+						if v == nil || v.Op != "binop" || len(v.Args) != 2 || (v.Name != "==" && v.Name != "!=") || (v.Name == "==") != cd.Taken {
+							continue
+						}
+						for side := 0; side < 2; side++ {
+							if k, isC := v.Args[side].Int64(); isC && fmt.Sprintf("%d", k&0xFF) == p {
+								if q := padString(v.Args[1-side]); !isDecimal(q) && (pad == "" || pad == q) {
+									p = q
+								}
+							}
+						}
+					}
+				}
 				if pad != "" && pad != p {
 					f.Kind, f.Note = "irregular", "different pad bytes in one field: "+pad+" / "+p
 					return f
